@@ -71,6 +71,8 @@ impl<'a> ReusableBoxFuture<'a, Result<TcpStream, io::Error>> {
     pub uninterp spec fn dialled(&self) -> Seq<SocketAddr>;
     pub uninterp spec fn local(&self) -> Option<IpAddr>;
     pub uninterp spec fn failed(&self) -> nat;
+    /// the most recent poll returned Pending (the attempt in flight holds the task's waker)
+    pub uninterp spec fn parked(&self) -> bool;
 
     #[verifier::external_body]
     pub fn new(f: DialAttempt) -> (r: Self)
@@ -90,6 +92,7 @@ impl<'a> ReusableBoxFuture<'a, Result<TcpStream, io::Error>> {
                 r matches Poll::Ready(Ok(s)) ==> s.peer() == old(self).dialled().last() && final(self).failed() == old(self).failed(),
                 r matches Poll::Ready(Err(_)) ==> final(self).failed() == old(self).failed() + 1,
                 r is Pending ==> final(self).failed() == old(self).failed(),
+                final(self).parked() == (r is Pending),
     { unimplemented!() }
 }
 
@@ -199,6 +202,8 @@ impl<R: Host> TcpConnectorFut<R> {
         r matches Poll::Ready(Err(ConnectError::Io(_))) ==> (*final(self) matches TcpConnectorFut::Response { addrs, stream, .. }
             && (match addrs { Some(d) => d@.len() == 0, None => true }) && stream.failed() == stream.dialled().len()),
         r is Pending ==> final(self).wf(),
+        // Pending only while the attempt in flight has just answered Pending (and holds the waker)   [C19]
+        r is Pending ==> (*final(self) matches TcpConnectorFut::Response { stream, .. } && stream.parked()),   // [C19]
         *old(self) is Error ==> r matches Poll::Ready(Err(ConnectError::Unresolved)),   // [C19]
 //@loop head="loop"
         invariant
